@@ -311,17 +311,21 @@ def run_check(pid, mod, tier, seed, replay):
             thms, aout = audit(P['namespace'], P['lean_module'])
             if thms is None:
                 broken.append('axiom audit failed: ' + aout[-800:]); thms = []
+        cb_ok, cb_out = True, ''
+        if hasattr(mod, 'prebuild'):
+            # generated sources (compiled corpora) are written before anything is compiled
+            try:
+                mod.prebuild('thorough' if broken else tier, seed, random.Random(seed))
+            except Exception as e:
+                cb_ok = False; cb_out += '\nprebuild: ' + traceback.format_exc()
         bins = sorted(set([s.bin for s in P['streams'] if not s.crate] + list(P.get('extra_bins', []))))
-        cb_ok, cb_out = cargo_build(bins) if bins else (True, '')
+        if bins:
+            ok_b, out_b = cargo_build(bins)
+            if not ok_b: cb_ok = False; cb_out += out_b
         for crate in sorted(set(s.crate for s in P['streams'] if s.crate)):
             ok_c, out_c = cargo_build(sorted(set(s.bin for s in P['streams'] if s.crate == crate)), crate=os.path.join(VERIF, crate))
             if not ok_c:
                 cb_ok = False; cb_out += out_c
-        if hasattr(mod, 'prebuild'):
-            try:
-                mod.prebuild(tier, seed, rng)
-            except Exception as e:
-                cb_ok = False; cb_out += '\nprebuild: ' + traceback.format_exc()
     bad_ax = [(n, [a for a in axs if a not in ALLOWED_AXIOMS]) for (n, axs) in thms]
     bad_ax = [(n, a) for (n, a) in bad_ax if a]
     for n, a in bad_ax:
